@@ -160,6 +160,9 @@ def scan(repo):
         parts = rel.split(os.sep)
         if "tests" in parts or parts[-1] in ("tests.rs", "mock.rs") or "s2n-quic" in parts:
             continue
+        # verification hook files (cfg(feature = "verif"), add-only) are not part of the crate proper
+        if parts[-1].startswith("verif"):
+            continue
         s = strip_tests(blank(open(os.path.join(repo, rel)).read()))
         for kind, rx, only in KINDS:
             if only and not any(rel == o or rel.startswith(o) for o in only):
